@@ -153,10 +153,13 @@ impl Types {
         let mut sub_types = BTreeMap::new();
 
         let mut unresolved_sub_types = type_definition.struct_references().collect::<Vec<_>>();
-        while let Some(sub_type_name) = unresolved_sub_types
-            .pop()
-            .filter(|name| !sub_types.contains_key(name))
-        {
+        while let Some(sub_type_name) = unresolved_sub_types.pop() {
+            // NOTE: The primary type is never part of its own dependencies,
+            // even for recursive types, and each dependency appears once.
+            if sub_type_name == kind || sub_types.contains_key(sub_type_name) {
+                continue;
+            }
+
             let sub_type = self.type_definition(sub_type_name)?;
             unresolved_sub_types.extend(sub_type.struct_references());
             sub_types.insert(sub_type_name, sub_type);
